@@ -8,6 +8,7 @@ import (
 	"os"
 	"path/filepath"
 	"strings"
+	"sync/atomic"
 	"time"
 
 	"github.com/RoaringBitmap/roaring"
@@ -268,7 +269,12 @@ func runC15(r *vf.Run) {
 	for i := range damages {
 		ids = append(ids, fmt.Sprintf("dmg%04d", i))
 	}
+	var hangs int64
 	r.ForEach(ids, 12, func(id string) {
+		if atomic.LoadInt64(&hangs) >= 3 {
+			r.Count("cases_skipped_after_three_hangs", 1)
+			return
+		}
 		var di int
 		fmt.Sscanf(id, "dmg%d", &di)
 		d := damages[di]
@@ -406,6 +412,7 @@ func runC15(r *vf.Run) {
 					ww := w()
 					stacks := joinStacks(mon.Stacks("updog"))
 					ww["stacks"] = head(stacks, 6000)
+					atomic.AddInt64(&hangs, 1)
 					if c := mon.ClassifyDump(stacks); c != "" {
 						ww["blocked"] = c
 						r.Violation(cid, "close-hangs", ww)
